@@ -845,11 +845,29 @@ def check_C15(ctx):
             relation_violation(ctx, 'C15_truth', {'case': l, 'implementation': o, 'explanation': bad})
     c_a, _ = vlib.run_both(lib, ctx.snap, al)
     for l, o in zip(al, c_a):
-        for tok in o.split(' '):
+        ops = l.split(' ')[1:]
+        for op, tok in zip(ops, o.split(' ')):
             p = tok.split(':')
             if p[0] in ('R0', 'R1') and len(p) >= 4 and ((p[0] == 'R1') != (p[1] == '0')) and nb < 3:
                 nb += 1
                 relation_violation(ctx, 'C15_return_iff_no_error', {'case': l, 'implementation': o, 'explanation': 'eav_is_email returned %s with errcode %s' % (p[0][1:], p[1])})
+            # the recorded error is the validator's own code: -rc for a negative result, the class's error for a rejected class, 0 when accepted
+            if op[:1] == 'e' and p[0] in ('R0', 'R1') and len(p) >= 4 and p[1].lstrip('-').isdigit():
+                res = p[3].split(',')
+                if res and res[0].lstrip('-').isdigit():
+                    rc, err = int(res[0]), int(p[1])
+                    want = 0 if p[0] == 'R1' else (-rc if rc < 0 else 26 + rc if rc > 0 else None)
+                    if want is not None and err != want and nb < 3:
+                        nb += 1
+                        relation_violation(ctx, 'C15_errcode_is_the_validators_code', {'case': l, 'implementation': o, 'validator_result': rc, 'errcode': err, 'expected_errcode': want,
+                                           'explanation': 'the error code recorded by eav_is_email is not the code of the validator result (negated code; EEAV_TLD_<class> for a rejected class; 0 when accepted)'})
+            # eav_errstr describes the recorded error: the table message of that very code, or the IDN library's message exactly when the code is the IDN error
+            if op == 'x' and len(p) >= 2 and p[0][:1] in 'TI' and p[1].lstrip('-').isdigit() and nb < 3:
+                err = int(p[1])
+                if (p[0][0] == 'T' and p[0][1:] != str(err)) or (p[0][0] == 'I' and err != 2) or (p[0][0] == 'T' and err == 2):
+                    nb += 1
+                    relation_violation(ctx, 'C15_message_is_for_the_recorded_error', {'case': l, 'implementation': o, 'message': p[0], 'errcode': err,
+                                       'explanation': 'eav_errstr returned the message of another code (T<k> = table message k, I<k> = IDN library message for IDN code k) than the recorded error code'})
         if ('EMPTY' in o or ':N:' in o or ' N:' in o or '?' in o) and nb < 3:
             nb += 1
             relation_violation(ctx, 'C15_message', {'case': l, 'implementation': o, 'explanation': 'eav_errstr returned NULL, an empty string or a text that is neither a table message nor the IDN library message for the recorded IDN code'})
